@@ -167,6 +167,14 @@ from . import initial
 
 from . import mustcall
 
+from . import vocab
+
+
+def _c07_o1(W, ob):
+    from . import c07 as _m
+    return _m.o1(W, ob)
+
+
 OBLIGATIONS = [
     ('C10.O1', 'gossip out', 'every Input packet carries the connect_status it was given; the session passes local_connect_status at every '
      'send_input/poll call.', o1),
@@ -177,7 +185,9 @@ OBLIGATIONS = [
     ('C10.O4', 'the adopted cut-off reaches the lookup', 'the last_frame handed to disconnect_player_at_frame is stored to local_connect_status[h].last_frame.', o4),
     ('C10.O5', 'the pending disconnect frame takes part in the rollback (= C01.O7)', 'see C01.O7', c01.o7),
     ('C10.O6', 'same cut-off predicate everywhere (= C03.O2)', 'see C03.O2', c03.o2),
+    ('C10.O7', 'a peer is dropped by the timeout rule only (= C07.O1)', 'survivors that drop a live peer at different moments disagree on its cut-off: Disconnected is raised under last_recv_time + disconnect_timeout < now and nothing else; see C07.O1', _c07_o1),
     ('C10.H', 'helpers the rules above rely on', 'the bodies of the helpers named by this property\'s rules compute what the rules assume (endpoint_getters); see rules/helpers.py', helpers.bundle('endpoint_getters')),
     ('C10.I', 'initial state', 'every constructor gives the fields this property\'s rules interpret (NULL_FRAME = none / nothing yet, 0 = first frame, latches open, typestate start) the value listed in tables/initial_state.json; every field compared with NULL_FRAME anywhere is listed; see rules/initial.py', initial.rule_for('C10')),
     ('C10.M', 'must-call floor', 'the calls listed for this property in tables/must_call.json are made on every path from the entry of their function to a normal return (interprocedural must-call): a new early return, fast path or extra condition in front of one of them is reported; see rules/mustcall.py', mustcall.rule_for('C10')),
+    ('C10.V', 'no unreviewed condition in the pinned helpers', 'for each helper whose body this property\'s rules pin (tables/condition_terms.json), the terms its path conditions are built from (fields, parameters, call results -- no constants, operators or local names) are a subset of the reviewed vocabulary: one more `if` in front of a pinned result (a lock that may time out, "only while an endpoint is running") is reported; see rules/vocab.py', vocab.rule_for('C10')),
 ]
